@@ -40,7 +40,7 @@ template <class F> static void withInt(int ty, unsigned long long b, F f)
 static void unsupported() { fprintf(stderr, "C03 harness: operand type combination not instantiated\n"); exit(3); }
 // the _TEXT variants are instantiated for same-type operand pairs only, CHECK_COMPARE for the six int..unsigned long long
 // types plus same-type pairs (compile time); the generator respects this (checks/C03.py)
-#define SAME(a, b) (std::is_same<decltype(a), decltype(b)>::value)
+#define SAME(a, b) (std::is_same<typename std::decay<decltype(a)>::type, typename std::decay<decltype(b)>::type>::value)
 #define WIDE(a, b) (SAME(a, b) || (sizeof(a) >= 4 && sizeof(b) >= 4))
 #define K2(M) withInt(c03.ta, c03.za, [](auto a) { withInt(c03.tb, c03.zb, [a](auto b) { \
     if (c03.text) { if constexpr (SAME(a, b)) { M##_TEXT(a, b, "txt"); DONE; } else unsupported(); } else { M(a, b); DONE; } }); })
